@@ -115,7 +115,7 @@ namespace GeographicLib {
      *   1--6.
      **********************************************************************/
     static int dow(int s) {
-      return (s + 5) % 7;  // The 5 offset makes day 1 (0001-01-01) a Saturday.
+      return int((s + 5LL) % 7);  // The 5 offset makes day 1 (0001-01-01) a Saturday.
     }
 
     /**
